@@ -1429,7 +1429,7 @@ impl Oracles {
         if let Answer::Resolve(key) = &ans {
             self.hit("c01.resolve-seen");
             let hh = h.spec.htlc_hash;
-            if rf::sha256_of(key) != hh {
+            if rf::sha256_of(key) != hh || h.spec.hash_len != 32 {
                 self.violate(
                     w,
                     "C01",
